@@ -58,25 +58,39 @@ theorem loop_masks :
 /-! ## expressions: precedence and associativity -/
 
 /-- **Round trip.** For every well-formed derivation `d` of the documented expression grammar
-(`Model/BasicGrammar.lean`: seven levels, all fifteen binary operators, prefix operators and functions, the
-parenthesised-argument string functions; redundant parentheses allowed) the parser of the model — `expr` down to
-`factor`, the code's seven functions — returns exactly the tree `d` denotes (`Deriv.den`: a chain at one level is
-the *left* fold of its operators, `^` nests to the *right*, prefix operators bind tighter than any binary
-operator), consuming exactly the tokens of `d`, whenever what follows cannot continue an expression.
-
-`_partial`: subscripted variables and `GET(…)` (argument lists) are not part of `Deriv`; `∃ N` is the nesting
-budget (fuel) of the parser, the drivers run it with `parseFuel`. -/
-theorem parse_print_roundtrip_partial {α : Type} (d : Deriv α) (hw : d.WF) (rest : List (Tok α))
+(`Model/BasicGrammar.lean`: seven levels, all fifteen binary operators, prefix operators and functions,
+subscripted variables, `GET`/`GET$` argument lists, the parenthesised-argument string functions incl. `MID$`,
+`PAD`, `STR_F$`, `STR_E$`; redundant parentheses allowed) the parser of the model — `expr` down to `factor`, the
+code's seven functions — returns exactly the tree `d` denotes (`Deriv.den`: a chain at one level is the *left* fold
+of its operators, `^` nests to the *right*, prefix operators bind tighter than any binary operator), consuming
+exactly the tokens of `d`, whenever what follows cannot continue an expression. `Deriv` has a constructor for every
+constructor of `Expr`, so this covers every expression form of the model. `∃ N` is the nesting budget (fuel) of the
+parser; the drivers run it with `parseFuel`. -/
+theorem parse_print_roundtrip {α : Type} (d : Deriv α) (hw : d.WF) (rest : List (Tok α))
     (hf : FollowOk 0 rest) :
     ∃ N, ∀ n, n ≥ N → pExpr n (d.flat ++ rest) = .ok (d.den, rest) := by
   obtain ⟨N, h⟩ := roundtrip_deriv d hw rest 0 (Nat.zero_le _) hf
   exact ⟨N + 1, pExpr_of_pLvl0 h⟩
 
 /-- the same at every grammar level (e.g. level 5: what `upexpr` returns) -/
-theorem parse_level_roundtrip_partial {α : Type} (d : Deriv α) (hw : d.WF) (rest : List (Tok α)) (l : Nat)
+theorem parse_level_roundtrip {α : Type} (d : Deriv α) (hw : d.WF) (rest : List (Tok α)) (l : Nat)
     (hl : l ≤ d.level) (hf : FollowOk l rest) :
     ∃ N, ∀ n, n ≥ N → pLvl n l (d.flat ++ rest) = .ok (d.den, rest) :=
   roundtrip_deriv d hw rest l hl hf
+
+/-- argument lists (subscripts, GET): `(, expr)* )` is read left to right into the argument list, whatever follows -/
+theorem parse_args_roundtrip {α : Type} (a : DArgs α) (hw : a.WF) (rest : List (Tok α)) :
+    ∃ N, ∀ n, n ≥ N → pArgsTail n (a.flat ++ rest) = .ok (a.den, rest) :=
+  roundtrip_args a hw rest
+
+/-- non-vacuity with subscripts and GET: `a(1, i + 1) * GET(2) ^ 2` -/
+example :
+    parseExpr (α := Nat)
+      [.var "a", .k .lp, .num 1, .k .comma, .var "i", .k .plus, .num 1, .k .rp, .k .times,
+       .k .get, .k .lp, .num 2, .k .rp, .k .up, .num 2]
+    = .ok (.bin .times (.var "a" (.cons (.num 1) (.cons (.bin .plus (.var "i" .nil) (.num 1)) .nil)))
+            (.bin .up (.get (.cons (.num 2) .nil)) (.num 2)), []) := by
+  rfl
 
 /-- non-vacuity: `- 2 ^ 2 ^ 3 * 4 - 5 - 6 < 7 AND 1 OR 0`: unary minus inside `^`, `^` to the right,
 `-` to the left, relation above AND above OR — parsed with the fuel the drivers use -/
